@@ -2,4 +2,6 @@
 void registerAll()
 {
     reg_range();
+    reg_parser();
+    reg_sock();
 }
